@@ -1497,7 +1497,10 @@ def gen_sh_history(rng, case, eid, nsteps):
             name, ar = rng.choice([('p', 1), ('p', 2), ('q', 1), ('q', 2)] + [tuple(k) for k in RULE_PREDS])
             probe(name, ar)
     for name in SH_NAMES:
-        probe_all(name)
+        if name in used:
+            probe_all(name)
+        else:
+            probe(name, rng.randrange(4))
     for name, ar in [('p', 1), ('p', 2), ('q', 1), ('q', 2)]:
         ops.append(['start', 3, name, [['v', v] for v in fresh(ar)]])
         ops.append(['drain', 3])
@@ -1548,7 +1551,7 @@ def gen(rng, tier):
     # round 4 (own random streams again): the same function / term / script objects given to several engines, and scale
     # cases in which the SUM of the depths of the suspended generators is large (K x depth calls alive at once)
     r3 = random.Random(r2.random())
-    sh = [gen_sh_case(r3) for _ in range(32 if quick else 400)]
+    sh = [gen_sh_case(r3) for _ in range(30 if quick else 400)]
     r4 = random.Random(r3.random())
     full += [gen_sc_case(r4, k, lo, hi, False) for k, lo, hi in ([(150, 200, 250)] if quick else [(150, 200, 250), (100, 150, 250), (250, 150, 200), (400, 60, 120)])]
     if quick:
